@@ -46,6 +46,12 @@ impl LinkNameMatcher {
 
 impl Matcher for LinkNameMatcher {
     fn matches(&self, file_info: &WalkEntry, _: &mut MatcherIO) -> bool {
+        // Only an entry that is itself a symbolic link has a link name.  A link
+        // that the follow mode resolves (-L, or -H for a starting point) is
+        // examined as its target, so -lname is false for it.
+        if !file_info.file_type().is_symlink() {
+            return false;
+        }
         if let Some(target) = read_link_target(file_info) {
             self.pattern.matches(&target.to_string_lossy())
         } else {
